@@ -59,8 +59,15 @@ def gen(rng, tier, idx):
     cap = rt.CAP_SMALL if variant == "small" else rt.CAP_REAL
     nth = 2 if r.chance(20) else 1
     knobs = rtgen.base_knobs(rng.derive("knobs"))
+    if rng.derive("stderr").chance(4):
+        # the program runs with its standard error closed, and repeats ovni_thread_init() (a documented warning)
+        knobs["close_stderr"] = 1
+        knobs.pop("close_stdin", None)
     g = rtgen.Prog(r, nth, cap, knobs, stale_pct=8)
     g.start(conformant=False)
+    if knobs.get("close_stderr"):
+        for t in range(nth):
+            g.plan.op(t, "thread_init", g.tids[t])
     arbitrary_clock = r.chance(50)
 
     def clk():
